@@ -96,7 +96,8 @@ Record spaceD : Type := mkS {
   s_cells : list (string * fml);      (* defined cells *)
   s_refs  : list (string * rval);     (* defined own references *)
   s_bases : list path;                (* direct bases, in order *)
-  s_namer : nat                       (* AutoNamer("Cells").__last_postfix *)
+  s_namer : nat;                      (* AutoNamer("Cells").__last_postfix *)
+  s_params : option (list string)     (* parameters of the space formula (ItemSpaces), None = no formula *)
 }.
 
 Record state : Type := mkSt {
@@ -156,13 +157,15 @@ Definition upd_space (st : state) (p : path) (f : spaceD -> spaceD) : state :=
   mkSt (upd_in (st_spaces st) p f) (st_grefs st).
 
 Definition with_cells (c : list (string * fml)) (s : spaceD) : spaceD :=
-  mkS c (s_refs s) (s_bases s) (s_namer s).
+  mkS c (s_refs s) (s_bases s) (s_namer s) (s_params s).
 Definition with_refs (r : list (string * rval)) (s : spaceD) : spaceD :=
-  mkS (s_cells s) r (s_bases s) (s_namer s).
+  mkS (s_cells s) r (s_bases s) (s_namer s) (s_params s).
 Definition with_bases (b : list path) (s : spaceD) : spaceD :=
-  mkS (s_cells s) (s_refs s) b (s_namer s).
+  mkS (s_cells s) (s_refs s) b (s_namer s) (s_params s).
 Definition with_namer (k : nat) (s : spaceD) : spaceD :=
-  mkS (s_cells s) (s_refs s) (s_bases s) k.
+  mkS (s_cells s) (s_refs s) (s_bases s) k (s_params s).
+Definition with_params (ps : option (list string)) (s : spaceD) : spaceD :=
+  mkS (s_cells s) (s_refs s) (s_bases s) (s_namer s) ps.
 
 (** ---- inheritance graph, ancestors, sub spaces ---- *)
 Definition graph_of_spaces (l : list (path * spaceD)) : graph :=
@@ -219,7 +222,7 @@ Definition in_model_ns (st : state) (n : string) : bool :=
   has_child st [] n || has_gref st n.
 
 (** what a name denotes in the namespace of a space: the chain order decides *)
-Inductive kind : Type := KCells | KOwnRef | KSysRef | KGlobalRef | KSpace.
+Inductive kind : Type := KCells | KOwnRef | KSysRef | KGlobalRef | KSpace | KParam.
 
 Definition ns_lookup (st : state) (p : path) (n : string) : option kind :=
   if has_cells st p n then Some KCells
@@ -267,6 +270,34 @@ Definition dir_names (st : state) (p : path) : list string :=
   (cells_names st p ++ refs_names st p ++ sys_names ++ map fst (st_grefs st) ++ ["__builtins__"]
    ++ child_names st p)%list.
 
+(** ---- ItemSpaces: the namespace of [space[args]] ------------------------------
+    [DynamicSpaceImpl._init_refs]: the references chain of an ItemSpace is
+    arguments (the parameters of the space formula) > its own references
+    (none) > the special names > the references of the base space (own,
+    defined or derived) > the model's; its cells and child spaces mirror the
+    base space's *)
+Definition params_of (st : state) (p : path) : list string :=
+  match get_space st p with
+  | Some s => match s_params s with Some ps => ps | None => [] end
+  | None => []
+  end.
+
+Definition item_dir_names (st : state) (p : path) : list string :=
+  (cells_names st p ++ params_of st p ++ sys_names ++ refs_names st p ++ map fst (st_grefs st)
+   ++ ["__builtins__"] ++ child_names st p)%list.
+
+Definition item_in_namespace (st : state) (p : path) (n : string) : bool :=
+  has_cells st p n || mem_str n (params_of st p) || in_refs_chain st p n || has_child st p n.
+
+Definition item_lookup (st : state) (p : path) (n : string) : option kind :=
+  if has_cells st p n then Some KCells
+  else if mem_str n (params_of st p) then Some KParam
+  else if mem_str n sys_names then Some KSysRef
+  else if has_ref st p n then Some KOwnRef
+  else if has_gref st n then Some KGlobalRef
+  else if has_child st p n then Some KSpace
+  else None.
+
 (** the name-clash test over every space: no name is two kinds of thing *)
 Definition disjoint_at (st : state) (p : path) : bool :=
   forallb (fun n => negb (has_ref st p n) && negb (has_child st p n)) (cells_names st p)
@@ -284,7 +315,8 @@ Inductive op : Type :=
 | AddBases (s : path) (bs : list path)
 | RemoveBases (s : path) (bs : list path)
 | SetAttr (s : path) (n : string) (v : rval)                     (* s = [] : model.n = v *)
-| DelAttr (s : path) (n : string).                               (* s = [] : del model.n *)
+| DelAttr (s : path) (n : string)                                (* s = [] : del model.n *)
+| SetParams (s : path) (ps : list string).                       (* space.parameters = ps *)
 
 Inductive reason : Type :=
 | NoSuchSpace      (* the path does not denote a space (driver: lookup fails) *)
@@ -394,7 +426,7 @@ Definition step_new_space (st : state) (parent : path) (name : string) (bases : 
     let p := (parent ++ [name])%list in
     let bs := fold_left add_base bases [] in
     (* the working copy of the graph: a new node cannot close a cycle; MRO test *)
-    let st1 := add_space st p (mkS [] [] bs 0) in
+    let st1 := add_space st p (mkS [] [] bs 0 None) in
     if negb (all_mro_ok (graph_of st1)) then reject st NoMro
     else
       (* the space now sits in its container; deriving its members fails on a
@@ -491,13 +523,7 @@ Definition step_rename_space (st : state) (p : path) (new : string) : outcome * 
       if negb (has_space st p) then reject st NoSuchSpace
       else if negb (can_add_space st (parent_of p) new) then reject st NameInUse
       else if negb (is_valid_name new) then reject st InvalidName     (* ideal; N4 *)
-      else
-        let st1 := relabel st p (parent_of p ++ [new])%list in
-        (* re-labelling the nodes changes neither the linearisations nor the members; the
-           model re-evaluates both tests on the re-labelled state instead of relying on
-           that (the branch is never taken; see Proofs and the tie) *)
-        if all_mro_ok (graph_of st1) && all_disjoint st1 then (Accepted, st1)
-        else reject st NotAllowed
+      else (Accepted, relabel st p (parent_of p ++ [new])%list)
   end.
 
 Definition set_bases (st : state) (s : path) (bs : list path) : state :=
@@ -583,6 +609,22 @@ Definition step_del_attr (st : state) (s : path) (n : string) : outcome * state 
       else reject st NoSuchMember
   end.
 
+(** [space.parameters = (...)]: the source "lambda p1, p2: None" must parse -
+    every name an identifier that is no keyword, no name twice.  (The pinned
+    tree deletes the old formula before it parses the new one: N11.) *)
+Definition is_param_name (s : string) : bool := is_identifier s && negb (mem_str s keywords).
+
+Fixpoint nodup_str (l : list string) : bool :=
+  match l with
+  | [] => true
+  | x :: t => negb (mem_str x t) && nodup_str t
+  end.
+
+Definition step_set_params (st : state) (s : path) (ps : list string) : outcome * state :=
+  if negb (has_space st s) then reject st NoSuchSpace
+  else if negb (forallb is_param_name ps && nodup_str ps) then reject st BadFormula
+  else (Accepted, upd_space st s (with_params (Some ps))).
+
 Definition step (st : state) (o : op) : outcome * state :=
   match o with
   | NewSpace parent name bases => step_new_space st parent name bases
@@ -594,6 +636,7 @@ Definition step (st : state) (o : op) : outcome * state :=
   | RemoveBases s bs => step_remove_bases st s bs
   | SetAttr s n v => step_set_attr st s n v
   | DelAttr s n => step_del_attr st s n
+  | SetParams s ps => step_set_params st s ps
   end.
 
 Definition run_from (st : state) (h : list op) : state :=
